@@ -3,7 +3,7 @@
    witnesses for the defects that the faithful model reproduces. *)
 From Coq Require Import QArith Qring Qfield Setoid Morphisms Lia List ZArith NArith Bool.
 From SE Require Import C31.VisitorModel.
-From SE Require Import C31.SeriesSpec C31.Invert C31.LogAtan C31.Exp.
+From SE Require Import C31.SeriesSpec C31.Invert C31.LogAtan C31.Exp C31.Nthroot.
 Local Open Scope Q_scope.
 
 (* ------------------------------------------------------------------ primitives *)
@@ -81,6 +81,28 @@ Theorem exp_spec_b s prec :
 Proof.
   intros W H Hp. apply exp_spec;
     [apply wfb_wf; exact W|apply const0_coef; assumption|apply prec_ok_lt; exact Hp].
+Qed.
+
+(* ------------------------------------------------------------------ roots *)
+Theorem nthroot_spec_b s (np : positive) prec c :
+  wfb s = true -> const0 s = false -> (2 <= Zpos np)%Z -> prec_ok prec = true ->
+  qroot (find_cf s 0) np = Ok c ->
+  exists r, series_nthroot s (Zpos np) prec = Ok r /\ wf r /\
+            eqn (N.to_nat prec) (ppow_s (den r) (Pos.to_nat np)) (den s).
+Proof.
+  intros W H Hn Hp Hq. apply (nthroot_spec s np prec c);
+    [apply wfb_wf; exact W|apply const0_false_coef; assumption|exact Hn|apply prec_ok_lt; exact Hp|exact Hq].
+Qed.
+
+Theorem nthroot_inv_spec_b s (np : positive) prec c :
+  wfb s = true -> const0 s = false -> (2 <= Zpos np)%Z -> prec_ok prec = true ->
+  qroot (find_cf s 0) np = Ok c -> qis0 c = false ->
+  exists r, series_nthroot s (Zneg np) prec = Ok r /\ wf r /\
+            eqn (N.to_nat prec) (ppow_s (den r) (Pos.to_nat np) * den s)%ps p1.
+Proof.
+  intros W H Hn Hp Hq Hc. apply (nthroot_inv_spec s np prec c);
+    [apply wfb_wf; exact W|apply const0_false_coef; assumption|exact Hn|apply prec_ok_lt; exact Hp|exact Hq
+    |apply qis0_false; exact Hc].
 Qed.
 
 (* ------------------------------------------------------------------ Taylor coefficients *)
